@@ -42,7 +42,7 @@ func (m *Mutex) Unlock() {
 	}
 	vrt.Point("Mutex.Unlock", nil)
 	if !m.locked {
-		panic("sync: unlock of unlocked mutex")
+		vrt.Fatal("sync: unlock of unlocked mutex")
 	}
 	m.locked = false
 	m.o.Touch(2)
@@ -82,7 +82,7 @@ func (m *RWMutex) Unlock() {
 	}
 	vrt.Point("RWMutex.Unlock", nil)
 	if !m.w {
-		panic("sync: Unlock of unlocked RWMutex")
+		vrt.Fatal("sync: Unlock of unlocked RWMutex")
 	}
 	m.w = false
 	m.o.Touch(2)
@@ -107,7 +107,7 @@ func (m *RWMutex) RUnlock() {
 	}
 	vrt.Point("RWMutex.RUnlock", nil)
 	if m.r <= 0 {
-		panic("sync: RUnlock of unlocked RWMutex")
+		vrt.Fatal("sync: RUnlock of unlocked RWMutex")
 	}
 	m.r--
 	m.o.Touch(4)
